@@ -109,6 +109,15 @@ PLANS = {
         "require_stats": {"quick": {"send_reset_calls": 1000}, "thorough": {}},
         "assumptions": COMMON_ASSUME + ["a further RST_STREAM(STREAM_CLOSED) sent in reaction to peer frames arriving for an already reset stream is RFC-permitted and not counted as a second reset"],
     },
+    "C18": {
+        "rule": "raw engine, flood family: a scripted peer drives one h2 endpoint (server: 16 flood kinds - rapid open+reset before/after accept, open beyond the concurrency limit, CONTINUATION trains, oversized header lists, tiny/empty DATA, PING/SETTINGS/WINDOW_UPDATE/PRIORITY/unknown-frame storms, frames on closed and reset streams; client: PUSH_PROMISE trains (bare, reset, completed), 1xx trains, tiny/empty DATA, the same storms) with applications that accept fast, hold, ignore or accept only a few streams, optionally with the endpoint's writes blocked or its send window withheld, at flood length n and again at 8n; hook-H2 snapshots around every connection poll are compared with reference bounds computed from the configuration only (records the application holds no handle to <= max_concurrent_streams + max_concurrent_reset_streams + max_pending_accept_reset_streams + 2; buffered receive events <= 3 per record + 3 per held stream + min(window/256 + data_frame_budget + 100, DATA frames the peer sent); queued send frames <= max_local_error_reset_streams + 2 per record + 4 per held stream), and while writes are blocked the bytes consumed from PING/SETTINGS floods must stay below 64 kB + 2 frames. Non-trivial iff the prelude reached the flood state in both runs; distinct by wire/schedule fingerprint of both runs.",
+        "quick": [raw("flood", 1600)],
+        "thorough": [raw("flood", 60000)],
+        "min_nontrivial": {"quick": 500, "thorough": 5000},
+        "require_stats": {"quick": {"flood.snapshots_judged": 500000, "flood.items_sent": 100000, "flood.with_blocked_writes": 50, "flood.blocked_reply_checks": 20, "flood.outcome.goaway11": 50, "flood.refused_stream_rsts": 1000}, "thorough": {}},
+        "evidence_stats": ["flood", "max.flood", "snapshots", "conn_polls", "bytes_written"],
+        "assumptions": COMMON_ASSUME + ["bounds are judged on stream records, buffered receive events and queued send frames as copied by hook H2; heap bytes outside those containers (partial header block, HPACK tables, codec buffers) are bounded by construction in h2 and are not measured", "what the local application itself holds (stream records with a live handle) is excluded from the record bound, as the property states", "floods are finite (n <= 260, 8n <= 2080 items): growth slower than one record per 8 flood items below the bound would not be seen"],
+    },
     "C19": {
         "rule": "sim engine: a first wave of streams ending by every path with handle drops at random instants, quiescence with the connection alive (hook-H2 snapshot must show nothing retained outside the reset memory, counters and windows idle), a second wave on the recycled slots, then idle close (GOAWAY(NO_ERROR), transport shutdown, Ok(())). Non-trivial iff a stream ended by a non-clean path or the forgetting check ran; distinct by behaviour fingerprint.",
         "quick": [sim("forget", 14000), sim("general", 2000)],
